@@ -19,7 +19,8 @@ EXPLANATION = (
     " (R7) UTF-8 validation per fill_buf window in the lazy record reader carries an incomplete trailing character over to the next window."
     " (R8) the VCF-text header sub-reader (vcf, bcf; sync and async) agrees with the majority of the ten copies of that state machine."
     " (R10) the async VCF writer clears its line buffer before the inner writer fills it; (R11) element-wise reset: every per-sample value row of the reused Samples is cleared (loop, for_each(clear), whole clear, or a callee that resets on all success paths) before parse_values — which returns Ok untouched for a `.` column — fills it."
-    " (R12) decode after split: no function splits (split / split_once / memchr) a value that derives from the result of percent_decode.")
+    " (R12) decode after split: no function splits (split / split_once / memchr) a value that derives from the result of percent_decode."
+    " (R13) table agreement of the header enums: every variant the header writer spells as a literal is the result of an arm of the header parser (genuine defect F46, repaired: FORMAT numbers LA / LR / LG / P / M were written but not parsed).")
 ASSUMPTIONS = ["percent-encoding crate encodes exactly the bytes in the AsciiSet (plus non-ASCII) and decodes %XX",
                "reader delimiter constants are the named DELIMITER/SEPARATOR consts of the reader modules (floor-checked)"]
 NOT_DECIDED = ["value equality over the VCF grammar (numbers, floats, genotype strings, header records)",
@@ -167,6 +168,10 @@ def run(ctx):
         ctx.ok("C09.R12", "%d functions call percent_decode" % n12, "none of them splits a value that derives from its result")
     ctx.floor("C09.R12", "functions that call percent_decode", n12, 6)
 
+    ctx.rule("C09.R13", "A7 table agreement of the header enums: every variant the header writer spells as a literal is produced by an arm of "
+                        "the header parser (numbers, types)")
+    header_variant_tables_rule(ctx, "C09.R13", 2)
+
     ctx.rule("C09.R6", "A10 append-buffer discipline: VCF readers reset their line buffer before every appended line")
     a10.discipline_rule(ctx, "C09.R6", r"^<?noodles_vcf::", 8)
 
@@ -236,3 +241,47 @@ def run(ctx):
                               "%s overrides %s: lazy and eager records may report different spans" % (overrides[0], name))
             else:
                 ctx.ok("C09.R4", "%s: one provided implementation, no override in %d impls" % (name, len(fb.impls)), "")
+
+
+
+def header_variant_tables_rule(ctx, rule, floor):
+    """every header value the writer can spell is a value the parser can read: for each `write_<x>` match over an enum in the VCF
+    header writer and the `parse_<x>` of the same path in the header parser, every variant that has a writer arm producing a
+    literal also occurs as the result of a parser arm (defect F46: the FORMAT number writer spelled LA/LR/LG/P/M, the parser knew
+    A/R/G/. only). Variants written with a formatted payload (Count(n), Other(..)) are read by the parser's catch-all arm."""
+    fb = ctx.fb
+    n = 0
+    W = "noodles_vcf::io::writer::header::record::value::map::"
+    P = "noodles_vcf::header::parser::record::value::map::"
+    for wk, wms in sorted(fb.matches.items()):
+        if not wk.startswith(W):
+            continue
+        tail = wk[len(W):]
+        m_ = re.match(r"(.*)::write_(\w+)$", tail)
+        if not m_:
+            continue
+        pk = P + m_.group(1) + "::parse_" + m_.group(2)
+        if pk not in fb.matches:
+            continue
+        for wm in wms:
+            wvars = {}
+            for a in wm["arms"]:
+                for v in re.findall(r"::(\w+)::(\w+)(?:\(|\b)", a["p"]):
+                    pass
+                mv = re.match(r"^([\w:<>' ,]+)::(\w+)(\(.*\))?$", a["p"].strip())
+                if mv and "write_all" in a["v"] and not mv.group(3):
+                    wvars[mv.group(2)] = a["p"]
+            if len(wvars) < 2:
+                continue
+            n += 1
+            ctx.saw_fn(fb.fns[wk]) if wk in fb.fns else None
+            pvals = " ".join(a["v"] for pm in fb.matches[pk] for a in pm["arms"])
+            missing = sorted(v for v in wvars if not re.search(r"::%s\b" % re.escape(v), pvals))
+            if missing:
+                ctx.violation(rule, "%s/written-not-parsed/%s" % (rule, pk),
+                              "%s spells the variants %s, but no arm of %s produces them: a header the writer emits (and any file that uses these "
+                              "values) does not parse" % (wk.split("::")[-1] + " in " + m_.group(1), missing, pk), fb.fns[pk].loc() if pk in fb.fns else "")
+            else:
+                ctx.ok(rule, "%s <-> %s" % (wk[len(W):], pk[len(P):]), "all %d literal variants of the writer are results of parser arms" % len(wvars),
+                       fb.fns[pk].loc() if pk in fb.fns else "")
+    ctx.floor(rule, "writer/parser enum tables of the VCF header", n, floor)
